@@ -88,6 +88,79 @@ M = [
         } else
             e.setM2Matrix(rewards);
 """),
+ # ---- round 3: helpers one level below the anchored files, and inputs the earlier streams did not contain
+ ('N1 isProbability(SparseMatrix2D) loses its |.| clause (sum only)', 'src/Utils/Probability.cpp',
+  """                checkDifferentSmall(in.row(row).sum(), 1.0) ||
+                checkDifferentSmall(in.row(row).cwiseAbs().sum(), 1.0)
+            ) return false;""", """                checkDifferentSmall(in.row(row).sum(), 1.0)
+            ) return false;"""),
+ ('N2 isProbability(Matrix2D) loses its negativity clause', 'src/Utils/Probability.cpp',
+  """            if (in.row(row).minCoeff() < 0.0 || checkDifferentSmall(in.row(row).sum(), 1.0))""",
+  """            if (checkDifferentSmall(in.row(row).sum(), 1.0))"""),
+ ('N3 MDP::Model::setDiscount accepts 0', 'src/MDP/Model.cpp',
+  """        if ( !(d > 0.0 && d <= 1.0) ) throw std::invalid_argument("Discount parameter must be in (0,1]");""",
+  """        if ( !(d >= 0.0 && d <= 1.0) ) throw std::invalid_argument("Discount parameter must be in (0,1]");"""),
+ ('N4 Experience::setVisitsTable(const Table3D&) sums columns instead of rows', 'src/MDP/Experience.cpp',
+  """                visitsSum_(s, a) = visits_[a].row(s).sum();
+    }""", """                visitsSum_(s, a) = visits_[a].col(s).sum();
+    }"""),
+ ('N5 write(os, SparseMatrix2D) skips explicitly stored zeros but still counts them', 'src/Utils/IO.cpp',
+  """            for (SparseMatrix2D::InnerIterator it(m, k); it; ++it)
+                os << it.row() << ' ' << it.col() << ' ' << it.value() << '\\n';
+
+        os.precision(oldPrecision);""", """            for (SparseMatrix2D::InnerIterator it(m, k); it; ++it)
+                if (it.value() != 0.0) os << it.row() << ' ' << it.col() << ' ' << it.value() << '\\n';
+
+        os.precision(oldPrecision);"""),
+ ('N6 SparseExperience::setVisitsTable keeps stale sums (no setZero, insert only when absent)', 'src/MDP/SparseExperience.cpp',
+  """                if (totalVisits > 0) visitsSum_.insert(s, a) = totalVisits;""",
+  """                if (totalVisits > 1) visitsSum_.insert(s, a) = totalVisits;"""),
+ ('N7 write(os, double) normalises the value through an addition (-0.0 becomes 0)', 'src/Utils/IO.cpp',
+  """        os << d << '\\n';
+
+        os.precision(oldPrecision);""", """        os << (d + 0.0) << '\\n';
+
+        os.precision(oldPrecision);"""),
+ ('N8 write(os, Matrix2D) normalises zeros (m(i,j) + 0.0)', 'src/Utils/IO.cpp',
+  """                os << m(i, j) << ' ';
+            os << '\\n';
+        }
+        os << '\\n';
+
+        os.precision(oldPrecision);""", """                os << (m(i, j) + 0.0) << ' ';
+            os << '\\n';
+        }
+        os << '\\n';
+
+        os.precision(oldPrecision);"""),
+ ('N9 MDP::Policy reader validates after committing and rolls back through the stream state', 'src/MDP/IO.cpp',
+  """        if (!isProbability(pMatrix)) {
+            AI_LOGGER(AI_SEVERITY_ERROR, "Policy matrix does not contain valid probabilities.");
+            is.setstate(std::ios::failbit);
+            return is;
+        }
+
+        p.policy_ = std::move(pMatrix);""", """        std::swap(p.policy_, pMatrix);
+        if (!isProbability(p.policy_)) {
+            AI_LOGGER(AI_SEVERITY_ERROR, "Policy matrix does not contain valid probabilities.");
+            is.setstate(std::ios::failbit);
+            std::swap(p.policy_, pMatrix);
+            return is;
+        }
+"""),
+ ('N10 Experience reader clears the stream after a failed timesteps extraction ("lenient")', 'src/MDP/IO.cpp',
+  """        if (!(is >> e.timesteps_))
+            AI_LOGGER(AI_SEVERITY_ERROR, "Could not read Experience timesteps.");
+""", """        if (!(is >> e.timesteps_)) {
+            AI_LOGGER(AI_SEVERITY_ERROR, "Could not read Experience timesteps.");
+            is.clear();
+        }
+"""),
+ ('N11 POMDP::Policy writer streams the action in the caller-independent way but forgets the values (precision kept, std::fixed forced)', 'src/POMDP/IO.cpp',
+  """        const auto oldPrecision = os.precision(std::numeric_limits<double>::max_digits10);
+""", """        const auto oldPrecision = os.precision(std::numeric_limits<double>::max_digits10);
+        os << std::fixed;
+"""),
  ('H1 harmless: Matrix2D writer uses setprecision(17) through a manipulator', 'src/Utils/IO.cpp',
   """    std::ostream & write(std::ostream & os, const Matrix2D & m) {
         const auto oldPrecision = os.precision(std::numeric_limits<double>::max_digits10);
